@@ -23,9 +23,28 @@ type verifC12 struct {
 	spec  *storespec.Spec
 	ids   []store.NodeID
 	accts []store.Account
+	site  int
 }
 
 func sameErr(a, b error) bool { return a == b }
+
+// allOrders switches the exploration of every map iteration order on around a driver call (tier
+// parameter maporder_all): the reference model and the harness iterate maps too, but their
+// results do not depend on the order, so only the driver's iterations are multiplied out.
+//
+// One kind of driver call per path (chosen by the explorer) gets all orders, the others the
+// insertion order: the orders of different calls add up instead of multiplying.
+func (w *verifC12) allOrders(on bool, site int) {
+	if verifapi.Param("maporder_all", 0) != 1 {
+		return
+	}
+	if w.site == 0 {
+		w.site = 1 + verifapi.Choose("orders.site", 5)
+	}
+	if w.site == 1+site {
+		verifapi.MapOrderAll(on)
+	}
+}
 
 func (w *verifC12) idArg(name string) store.NodeID {
 	return w.ids[verifapi.Choose(name, len(w.ids))]
@@ -82,7 +101,9 @@ func (w *verifC12) op(k int, tag string) {
 			}
 		}
 		blk := verifapi.Uint64(tag + "blk")
+		w.allOrders(true, 0)
 		inactive, err := d.UpdateNodePeers(id, list, blk)
+		w.allOrders(false, 0)
 		ev, either, werr := s.UpdateNodePeers(id, list, blk)
 		verifapi.Assert(sameErr(err, werr), "c12.updatepeers-error")
 		if err == nil && werr == nil {
@@ -133,7 +154,9 @@ func (w *verifC12) observe(focus int) {
 		if err == nil && werr == nil {
 			verifapi.Assert(verifapi.Same(verifapi.Snapshot(*got), verifapi.Snapshot(want)), "c12.obs.getnode-value")
 		}
+		w.allOrders(true, 1)
 		peers, perr := d.NodePeers(id)
+		w.allOrders(false, 1)
 		wp, wperr := s.NodePeers(id)
 		verifapi.Class("setnode-on-existing-node-resets-peers-in-memory-only", true)
 		verifapi.Assert(sameErr(perr, wperr), "c12.obs.nodepeers-error")
@@ -145,7 +168,9 @@ func (w *verifC12) observe(focus int) {
 		}
 	}
 	// aggregate statistics
+	w.allOrders(true, 2)
 	st, err := d.Stats()
+	w.allOrders(false, 2)
 	verifapi.Assert(err == nil, "c12.obs.stats-error")
 	if err == nil {
 		hosts, clients, maxBlk := s.Counts()
@@ -177,16 +202,18 @@ func (w *verifC12) observe(focus int) {
 	}
 	// active-host queries: every kind, every limit 0..2
 	kinds, limits := []string{"", "geth", "parity"}, []int{0, 1, 2}
-	if verifapi.Param("maporder_all", 0) == 1 {
-		// every map iteration order is explored: one (kind, limit) query per path, chosen by the
-		// explorer, instead of nine in a row (whose orders would multiply)
+	if w.site == 1+3 {
+		// every map iteration order of this call is explored: one (kind, limit) query per path,
+		// chosen by the explorer, instead of nine in a row (whose orders would multiply)
 		kinds = kinds[verifapi.Choose("obs.kind", 3):][:1]
 		limits = limits[verifapi.Choose("obs.limit", 3):][:1]
 	}
 	for _, kind := range kinds {
 		el, edge := s.ActiveSet(kind)
 		for _, limit := range limits {
+			w.allOrders(true, 3)
 			r, err := d.ActiveHosts(kind, limit)
+			w.allOrders(false, 3)
 			verifapi.Assert(err == nil, "c12.obs.activehosts-error")
 			seen := map[store.NodeID]bool{}
 			for _, h := range r {
@@ -228,7 +255,9 @@ func (w *verifC12) observeBalances() {
 		bal, err := d.GetAccountBalance(a)
 		verifapi.Assert(err == nil && bal.Credit.Cmp(s.GetAccountBalance(a)) == 0, "c12.obs.accountbalance")
 		verifapi.Assert(bal.Account == s.Owner(a), "c12.obs.accountbalance-owner")
+		w.allOrders(true, 4)
 		nodes, err := d.GetAccountNodes(a)
+		w.allOrders(false, 4)
 		want := s.GetAccountNodes(a)
 		verifapi.Assert(err == nil && len(nodes) == len(want), "c12.obs.accountnodes-size")
 		for _, n := range nodes {
@@ -249,7 +278,6 @@ func (w *verifC12) observeBalances() {
 // advances, then k arbitrary operations; after every operation results are
 // compared with the reference model, at the end every getter is compared.
 func VerifC12() {
-	verifapi.MapOrderAll(verifapi.Param("maporder_all", 0) == 1)
 	w := &verifC12{d: verifDriver()}
 	w.spec = storespec.New(verifapi.Now)
 	w.ids = []store.NodeID{store.NodeID(verifapi.NodeID(0)), store.NodeID(verifapi.NodeID(1)), ""}
